@@ -34,4 +34,6 @@ func sortStrings(s []string) {
 func hasBadStr(n interface {
 	Pos() gotokenPos
 	End() gotokenPos
-}) string { return oracleHasBad(n) }
+}) string {
+	return oracleHasBad(n)
+}
